@@ -552,6 +552,9 @@ void harvest(const char* name, const RunResult& rr, const std::vector<uint8_t>& 
    if (!(WIFEXITED(rr.status) && WEXITSTATUS(rr.status) == 0 && sh->done == 1)) {
       char b[200]; if (WIFSIGNALED(rr.status)) snprintf(b, sizeof b, "child killed by signal %d", WTERMSIG(rr.status)); else snprintf(b, sizeof b, "child exit status %d (%s)", WIFEXITED(rr.status) ? WEXITSTATUS(rr.status) : -1, sh->note);
       bool harness = sh->done == 2;
+      // the shadow table holds 2M words; the scenarios touch a few thousand. Exhausting it means the execution ran away (e.g. it walks
+      // a corrupted structure) under this schedule: that is a failure of the code under this schedule, reported like a crash
+      if (harness && strstr(sh->note, "shadow table full")) { add_finding(findings, nm + "|runaway-execution (instrumented accesses to > 2M distinct words)", std::string("execution ran away under schedule ") + sched + ": the race detector's shadow memory was exhausted", full_choices); return; }
       add_finding(findings, (harness ? "harness:runtime|" : nm + "|crash|") + std::string(b), std::string(b) + " under schedule " + sched, full_choices); return;
    }
    if (sh->deadlock) add_finding(findings, nm + "|deadlock", std::string(sh->note) + " under schedule " + sched, full_choices);
